@@ -1028,7 +1028,10 @@ fn is_pow_of(n: u32, b: u32) -> bool {
 }
 
 fn branch_of(b: u32, nb: u32, s: &BigInt, e: i64) -> &'static str {
-    if is_pow_of(nb, b) {
+    if b == nb {
+        // a pure change of precision through the base-conversion entry points
+        "same-base"
+    } else if is_pow_of(nb, b) {
         "new-base-is-power"
     } else if is_pow_of(b, nb) {
         "old-base-is-power"
@@ -1178,7 +1181,7 @@ fn conv_case<R: ModeTag, const B: Word, const NB: Word>(rec: &mut Rec, v: &FV, t
             rec.step();
             let got = guard(|| fbig_of::<R, B>(&v.s, v.e, 0).with_base_and_precision::<NB>(0));
             let case0 = || format!("({} * {}^{}, unlimited precision).with_base_and_precision::<{}>(0)", v.s, B, v.e, NB);
-            if br == "new-base-is-power" || br == "old-base-is-power" {
+            if br == "new-base-is-power" || br == "old-base-is-power" || br == "same-base" {
                 match got {
                     Ok(a) => {
                         let (r, flag) = unwrap_rounded(a);
@@ -1245,10 +1248,9 @@ fn conv_from<const B: Word>(ctx: &mut Ctx, p: u32, p_large: u32) {
     let srcps: Vec<usize> = vec![1, 2, 3, p as usize, p as usize + 3, 10, 24];
     macro_rules! to {
         ($nb:expr) => {
-            if $nb != B {
-                conv_sweep::<B, $nb>(ctx, &small, &tps, &srcps, "small");
-                conv_sweep::<B, $nb>(ctx, &large, &tps, &srcps, "large");
-            }
+            // (the target base may equal the source base: a pure change of precision)
+            conv_sweep::<B, $nb>(ctx, &small, &tps, &srcps, "small");
+            conv_sweep::<B, $nb>(ctx, &large, &tps, &srcps, "large");
         };
     }
     to!(2);
